@@ -10,7 +10,7 @@ PROP = dict(
     assumptions=['the no-collision clause is statistical: it is explored (census), not proved'],
 )
 MANIFEST = dict(
-    text="Coq theorems (Properties/C08.v, 10 obligations, all closed under the global context). bracket_preserves: the XOR-out / mutate / XOR-in "
+    text="Coq theorems (Properties/C08.v, 17 obligations, all closed under the global context). bracket_preserves: the XOR-out / mutate / XOR-in "
          "bracket keeps hash = base xor XOR_i hashAt(i) for any per-square hash function. hash_invariant_move / scratch_hash_move: through the whole "
          "of MovePreallocated (origin bracket, every drop, placements) the incremental hash of the result equals the from-scratch value, for every "
          "successful move from a position satisfying the invariant pos_ok (established by tak.New and preserved by moves, C01), with no hypothesis "
@@ -18,11 +18,18 @@ MANIFEST = dict(
          "satisfying pos_ok with the same size and the same squares have identical bitboards, heights, stack words and incremental hash. "
          "equal_sound / equal_complete: Position.Equal holds iff same size, same squares, same side to move, and then Hash() agrees - reserves, ply, "
          "tie-break flag and history do not matter; equal_hash_path_independent: in particular for any two move sequences from tak.New. "
+         "equal_hash_however_produced (Import6.v): `produced` is the inductive closure of tak.New (any configuration), tak.FromSquares of a fitting "
+         "board (any ply, any piece counts), ptn.ParseTPS of any accepted text without a stack above 64, the rebuild of symmetry.Symmetries under "
+         "any coordinate map, and Position.Move with a result within the 64 limit - in any mix; every produced position satisfies pos_ok "
+         "(produced_ok), so any two produced positions with the same size, the same squares as Position.At shows them and the same side to move "
+         "are Equal with the same Hash() and the same incremental hash, and Equal positions have the same size, squares and side "
+         "(equal_sound_produced). Witness: a replayed position, its TPS re-import and its rotation rotated back. "
          "Model of Equal/Hash/incremental hash is run against the implementation (raw 64-bit values with the regenerated basis table); a Go oracle "
          "rebuilds every generated position from its squares and checks Equal/Hash on transposing sequences, dirty-buffer moves, imports and symmetry "
          "images; a census checks hash distinctness.",
     ref='5.8', technique='Coq proof (hash invariant through the move function, canonical representation, Equal sound+complete) + model/implementation '
                          'differential + rebuild-from-squares oracle + collision census (exploration)',
     note="Trusted: Coq kernel, extraction, transcription of tak/hash.go (validated by execution). The reachability corollaries are stated for games of "
-         "at most 64 pieces (sizes 3..6 with default counts) or under the hypothesis that no stack on the way exceeds 64. pos_ok for FromSquares/TPS "
-         "imports and symmetry images is not proved here (their agreement is checked by execution). The collision clause is exploration only (partial).")
+         "at most 64 pieces (sizes 3..6 with default counts) or under the hypothesis that no stack on the way exceeds 64. Imports are inside the claim for stacks <= 64 "
+         "(a taller imported stack breaks the representation, C01_parse_tps_over64_refuted); caller-supplied storage (MovePreallocated into dirty "
+         "buffers) is covered by execution and by C17, not by `produced`. The collision clause is exploration only (partial).")
